@@ -132,6 +132,14 @@ def generate(g, tier):
             cases.append(dict(op='compile', opts=dict(stack_limit=L), src=dict(text=t), meta=dict(family='host-stack', expect_cls='StackOverflowError')))
         chain = '\n'.join([f'FUNC g{k}\n    RUN g{k + 1}' for k in range(L - 2)] + [f'FUNC g{L - 2}\n    STRING bottom', 'RUN g0'])
         cases.append(dict(op='compile', opts=dict(stack_limit=L), src=dict(text=chain), meta=dict(family='host-stack', expect_ok=True)))
+    # long FLAT expressions (hundreds to thousands of operands, no parentheses) in every evaluating context: the parse tree of a chain of
+    # equal-rank operators is as deep as the chain is long — a result or a compile error, never the host's RecursionError
+    for n in ((300, 990, 1200, 5000) if tier == 'quick' else (300, 600, 900, 990, 1000, 1010, 1200, 2500, 5000, 20000)):
+        for op in r.sample(['+', '*', '-', ',', '==', '+"a"+'], 3):
+            chain = op.join(['1'] * n)
+            for cx in r.sample(['$STRING {}', 'VAR x {}', 'IF {}\n    STRING y', 'REPEAT {}\n    STRING y', 'WHILE {}\n    BREAKLOOP', 'FUNC f a\n    STRING x\nRUN f {}', 'DELAY {}',
+                                '$STRING ({})', 'VAR v 1\n$STRING v+{}', 'RETURN {}', 'FUNC g\n    $STRING {}\nRUN g'], 3):
+                cases.append(dict(op='compile', timeout=60, src=dict(text=cx.format(chain)), meta=dict(family='long-flat', nocorr=True)))
     # known-finding probes (each costs a timeout or a deep recursion): a few per run
     cases.append(dict(op='compile', src=dict(text='$STRING 10^5000'), meta=dict(family='probe', probe='huge-int-str', nocorr=True)))
     cases.append(dict(op='compile', src=dict(text='$STRING ²'), meta=dict(family='probe', nocorr=True)))
